@@ -83,6 +83,8 @@ func startWatchdog(c *Ctx, onHang func(site, stack string, idle time.Duration)) 
 	done := make(chan struct{})
 	limit := hangLimit()
 
+	parent := os.Getppid()
+
 	go func() {
 		lastP, lastCPU, since := c.progress(), cpuUsed(), time.Now()
 
@@ -94,6 +96,11 @@ func startWatchdog(c *Ctx, onHang func(site, stack string, idle time.Duration)) 
 			case <-done:
 				return
 			case <-t.C:
+			}
+
+			// a worker whose parent is gone (killed run) has nobody to report to
+			if os.Getppid() != parent {
+				os.Exit(4)
 			}
 
 			p, cpu := c.progress(), cpuUsed()
